@@ -6,9 +6,9 @@ prop("C19",
      harness="c19_fourier",
      runs={
          "quick": [dict(flavour="asan", cases=5000), dict(flavour="rel", cases=25000)],
-         "thorough": [dict(flavour="asan", cases=150000), dict(flavour="rel", cases=1000000)],
+         "thorough": [dict(flavour="asan", cases=100000), dict(flavour="rel", cases=600000)],
      },
-     min_nontrivial={"quick": 10000, "thorough": 300000},
+     min_nontrivial={"quick": 10000, "thorough": 250000},
      min_obs={"quick": dict(_LENS, dft_checks_1d=2000, dft_checks_2d=2000, dft_checks_3d=2000, dft_real_checks=1500,
                             dft_impulse_checks=300, dft_parseval_checks=3000,
                             filter_vs_convolution_1d=1000, filter_vs_convolution_2d=1000, filter_vs_convolution_3d=1000,
@@ -16,9 +16,9 @@ prop("C19",
                             separable_order_checks=500, sepconv_imagefilter_checks=100,
                             gaussian_mean_checks=1000, gaussian_impulse_checks=1000, gaussian_imagefilter_cases=200,
                             metz_checks=1000, metz_sum_checks=500),
-              "thorough": dict({k: 600 for k in _LENS}, dft_checks_1d=60000, dft_checks_2d=60000, dft_checks_3d=60000,
-                               filter_vs_convolution_1d=30000, filter_vs_convolution_2d=30000, filter_vs_convolution_3d=30000,
-                               separable_order_checks=15000, gaussian_mean_checks=30000, metz_checks=30000)},
+              "thorough": dict({k: 600 for k in _LENS}, dft_checks_1d=50000, dft_checks_2d=50000, dft_checks_3d=50000,
+                               filter_vs_convolution_1d=25000, filter_vs_convolution_2d=25000, filter_vs_convolution_3d=25000,
+                               separable_order_checks=12000, gaussian_mean_checks=25000, metz_checks=25000)},
      rule=("case idx%10 selects the clause: 0-3 DFT (1-D: every power-of-two length 2..1024 in turn; 2-D up to 128x128, 3-D up to 32^3 "
            "/ 8192 elements, outer dimensions of length 1 included; random complex / impulse / constant / real-valued data, sign +-1): "
            "fourier and inverse_fourier vs a naive O(n^2) float64 DFT, inverse(forward), impulse -> constant modulus, Parseval, "
@@ -35,7 +35,7 @@ prop("C19",
            "one non-identity axis and a non-empty interior); distinct = distinct case descriptor"),
      technique=("runtime monitoring against independent float64 references (naive DFT, direct convolution, successive 1-D operators with a "
                 "propagated rigorous float32 error bound), under ASan/UBSan/asserts and in the release build"),
-     level_text=("tens of thousands (quick) / a million (thorough) generated transforms and filter applications on the real classes, every "
+     level_text=("tens of thousands (quick) / 700 000 (thorough) generated transforms and filter applications on the real classes, every "
                  "power-of-two length 2..1024 in 1-D and 1-3 dimensions, kernels with arbitrary (negative, non-centred, wrapped) index "
                  "ranges, all implemented boundary conditions; every output element is compared with a float64 reference inside a computed "
                  "band (normwise FFT bound 8(log2 N+s) eps32 ||.||, 8(n+2) eps32 sum|terms| for direct sums) that the unchanged tree stays "
